@@ -170,8 +170,11 @@ def judge (prop : String) (j : Json) : R Verdict := do
   -- does an input query hold an expression that fails to reduce once arguments and fees are in?
   -- (such an error is lost when the input is supplied before the next reduction)
   let af := (tx.applyArgs args).applyFees fees
+  let fails (e : Expr) : Bool := match e.reduce with | .ok _ => false | _ => true
   let queryErr := af.queries.any fun q => q.body.any fun e =>
-    match e.reduce with | .ok _ => false | _ => true
+    fails e ||
+    -- …or once the compiler ops inside it have been evaluated as well
+    (match compilerPass (reduceOp env) e with | .ok e' => fails e' | _ => true)
   if queryErr then tags := tags ++ ["query-body-error"]
   let nt := !(u0.isEmpty)
   let label := match (fieldD j "label") with | .str s => s | _ => ""
